@@ -169,7 +169,14 @@ class DataView(DataSet):
             raise IndexError(
                 "an index can only have a single ellipsis ('...')"
             )
-        elif user_slices.count(Ellipsis) == 1:
+        ndim = len(self.data_extent)
+        nidx = len(user_slices) - user_slices.count(Ellipsis)
+        if nidx > ndim:
+            raise IndexError(
+                "too many indices for DataView: DataView is {}-dimensional, "
+                "but {} were indexed".format(ndim, nidx)
+            )
+        if user_slices.count(Ellipsis) == 1:
             # expand slices at Ellipsis index
             expidx = user_slices.index(Ellipsis)
             npad = len(self.data_extent) - len(user_slices) + 1
